@@ -55,6 +55,9 @@ def run(ctx):
     # on the named-args arm of the decoder too (= C12.R9a)
     from rules import c12
     c12.r9_runtime_metadata(Renamed(ctx, "C12.R9a", "C19.R10"), facts, only=("C12.R9a",))
+    # one JSON object per statement: a statement with named args is handed to the sinks whole, never split at its newlines — decided
+    # from the event's named-args list, which the run-time-metadata path keeps while it replaces the metadata (= C12.R5)
+    c12.r5(Renamed(ctx, "C12.R5", "C19.R11"), facts)
 
 
 def r1(ctx):
